@@ -99,11 +99,15 @@ IsCall(op) == e.t = "call" /\ e.op = op
 Rejected ==          \* a call that panicked: the Ideal state is unchanged (B.4), except that
                      \* whatever the aborted call may have left behind is not held against the code
     /\ e.t = "call" /\ e.panic
+    \* the generator only issues calls that are valid for the state they are made in: a panic is a verdict
+    \* of its own (the history "any sequence of ..." could not be carried out)
+    /\ Chk("call_panicked", FALSE, [op |-> e.op, sp |-> (IF "sp" \in DOMAIN e THEN e.sp ELSE "f"),
+                                    kind |-> (IF "kind" \in DOMAIN e THEN e.kind ELSE ""), msg |-> e.msg])
     /\ S' = CASE e.op \in {"add", "conv_l2i", "replace_import"} -> I_Maybe(S, <<(IF e.op = "add" THEN e.sp ELSE "f"), e.tok>>)
                [] e.op = "set_name" -> I_MaybeName(S, e.name)
                [] OTHER -> S
     /\ UNCHANGED <<h, ih>>
-    /\ ops' = ops \cup {e.op \o "!"}
+    /\ ops' = ops \cup {(IF e.op = "add" THEN "add" \o e.kind ELSE e.op) \o "!"}
     /\ V' = [V EXCEPT !.exact = FALSE]      \* an aborted call may have left anything behind
 
 Add ==
@@ -226,9 +230,15 @@ DriftOk ==
        THEN PrintT(<<"SPEC-DRIFT", ToJson([tr |-> e.tr, sp |-> sp, predicted |-> V_Predict(sp), observed |-> e[sp]])>>)
        ELSE TRUE
 
+\* A structural call that panicked was rejected (B.4) but may have left the real object half-updated (e.g. the
+\* import pushed before the assertion fired): whatever is encoded afterwards is not a history the statements
+\* speak about, so it is not judged.  Exception: a rejected addition of a LOCAL item (finish_module's trailing
+\* assertion, finding F-S35) leaves at most that one complete item behind, which I_Maybe already tolerates.
+Tainted == \E x \in ops : x \in {"addI!", "conv_l2i!", "replace_import!", "delete!"}
+
 Encode ==
     /\ e.t = "encode"
-    /\ IF e.panic THEN EncodePanic ELSE EncodeOk
+    /\ IF Tainted THEN TRUE ELSE IF e.panic THEN EncodePanic ELSE EncodeOk
     /\ DriftOk
     /\ UNCHANGED <<S, h, ih, ops>>
     /\ V' = [V EXCEPT !.exact = FALSE]      \* the encode renumbers the vectors: the shadow ends here
